@@ -67,12 +67,12 @@ def mc_graph(run, cfgname, timeout=900):
     run.step("mc:" + cfgname, distinct=r.get("distinct"), generated=r.get("generated"), wall=round(r["wall"], 1))
 
 
-def gen_delivery(run, dagfam, ndags, num, depth, maxchanges=5, maxbatch=3):
+def gen_delivery(run, dagfam, ndags, num, depth, maxchanges=5, maxbatch=3, bundles=False):
     """spec -> impl: TLC samples delivery schedules over real DAGs, replayed on the implementation"""
     d = os.path.join(run.work, dagfam)
     drive([dagfam, run.seed, ndags, d, maxchanges])
     cfg = open(os.path.join(SPEC, "Gen_Delivery.cfg")).read().replace("Depth = 6", f"Depth = {depth}") \
-        .replace("MaxBatch = 3", f"MaxBatch = {maxbatch}")
+        .replace("MaxBatch = 3", f"MaxBatch = {maxbatch}").replace("WithBundles = FALSE", "WithBundles = " + ("TRUE" if bundles else "FALSE"))
     total = 0
     for i in range(ndags):
         dag = os.path.join(d, f"dag-{i}.json")
@@ -770,6 +770,13 @@ def c30(run):
     run.validate("Trace_Interp.tla", ["C30"], t, "ids")
     run.validate("Trace_Seq.tla", ["C03"], t, "ids-calls")
     count_nontrivial(run, t, has_foreign_id)
+    # actor bytes from 0x20 on: the actors minted for isolated transactions sort BEFORE the replicas' own actors, so
+    # every isolated transaction (also one that commits nothing) inserts into / removes from the front of the table
+    t2 = os.path.join(run.work, "idshi.ndjson")
+    drive(["idshi", run.seed, sizes(run, 150, 4000), t2])
+    run.validate("Trace_Interp.tla", ["C30"], t2, "idshi")
+    run.validate("Trace_Graph.tla", ["C04"], t2, "idshi-graph")
+    count_nontrivial(run, t2, has_foreign_id)
     sample_scenario(run, t, has_foreign_id, maxlen=6)
 
 
@@ -796,6 +803,11 @@ def c40(run):
     drive(["migrate", run.seed, sizes(run, 150, 4000), t])
     run.validate("Trace_Interp.tla", ["C40"], t, "migrate")
     count_nontrivial(run, t, has_string_conflict)
+    # strings in conflicted LIST elements and map keys next to counters / other values
+    t2 = os.path.join(run.work, "migrateconf.ndjson")
+    drive(["migrateconf", run.seed, sizes(run, 120, 3000), t2])
+    run.validate("Trace_Interp.tla", ["C40"], t2, "migrateconf")
+    count_nontrivial(run, t2, has_string_conflict)
     sample_scenario(run, t, has_string_conflict, maxlen=4)
 
 
